@@ -467,8 +467,39 @@ def prelude(tier):
             n += 1
             if real.shape != model.shape or not np.array_equal(real, model):
                 bad.append(f"BitArray model differs for L={L} k={k}")
-    return dict(obligations=0, discharged=0, queries=0, solver_s=time.time() - t0, inconclusive=bad,
-                summary=f"BitArray.pack/sliding_window semantic model compared with the real routine on {n} concrete arrays: {len(bad)} differences")
+    res = dict(obligations=0, discharged=0, queries=0, solver_s=time.time() - t0, inconclusive=bad, violations=[],
+               summary=f"BitArray.pack/sliding_window semantic model compared with the real routine on {n} concrete arrays: {len(bad)} differences")
+    _motif_probe(res)
+    return res
+
+
+def _motif_probe(res):
+    """get_motif_scores with matrices that hold -inf entries (log-odds of a forbidden letter), for motifs shorter and LONGER than the alphabet:
+    infinite weights are outside the exact-real model of the motif_scores harness, so these are concrete probes on the real library (every
+    window's score is the sum of its letters' entries; -inf only where the forbidden letter stands at that position)."""
+    import numpy as np
+    import bionumpy as bnp
+    from bionumpy.sequence.position_weight_matrix import PWM, get_motif_scores
+    seqs = ["ACGTACGT", "CCCCCCC", "GATTACAGATT", "TTTTTTGC", "ACGTAC"]
+    n = 0
+    for w in (1, 2, 3, 4, 5, 6):
+        M = np.array([[(a + 1) * 10.0 ** (k % 3) + k for k in range(w)] for a in range(4)])
+        M[1][w - 1] = -np.inf          # C is forbidden at the last position
+        if w > 2:
+            M[2][0] = -np.inf          # G is forbidden at the first position
+        rows = [s_ for s_ in seqs if len(s_) >= w]
+        n += 1
+        try:
+            got = get_motif_scores(bnp.as_encoded_array(rows, bnp.DNAEncoding), PWM(M.copy(), "ACGT")).tolist()
+            exp = [[float(sum(M["ACGT".index(s_[j + k])][k] for k in range(w))) for j in range(len(s_) - w + 1)] for s_ in rows]
+            ok = len(got) == len(exp) and all(len(g) == len(e) and all((a_ == b_) or (abs(a_ - b_) < 1e-9) for a_, b_ in zip(g, e)) for g, e in zip(got, exp))
+            outcome = None if ok else f"scores {got}, expected {exp}"
+        except Exception as e:
+            outcome = f"raised {type(e).__name__}: {str(e)[:100]}"
+        if outcome is not None:
+            res["violations"].append(dict(obligation="motif-probe", inputs=dict(window=w, rows=rows), output=outcome[:600],
+                                          why=f"[real run, concrete probe] get_motif_scores with a motif of length {w} whose matrix has -inf entries on rows {rows}: {outcome}"[:1000]))
+    res["summary"] += f"; get_motif_scores probed with -inf weights for {n} motif lengths"
 
 
 HARNESSES = [Kmers(), MinimizersH(), Match(), CountKmers(), KmerText(), MotifScores()]
